@@ -21,6 +21,8 @@ THEOREMS = [
     "C05.column_round_trip", "C05.round_trip_view", "C05.normVal_plain", "C05.normDoc_clean", "C05.columns_round_trip", "C05.all_variants_round_trip",
     "C05.ensurePK_keeps_columns", "C05.ensurePK_names",
     "C05.ensurePK_replaces_id", "C05.dict_becomes_optional", "C05.single_literal_lost", "C05.C05_full_false",
+    # the header description: the text handed to the docstring emitter agrees between the variants; the repaired defect
+    "C05.header_text_agrees", "C05.header_text_before_fix",
     # (iii) variant agreement, class <-> Table normalisation
     "C05.variants_agree", "C05.table_to_class_round_trip", "C05.underscore_names_are_columns",
 ]
@@ -309,14 +311,16 @@ def table_j(call):
     a0 = call.args[0]
     return {"tname": a0.value if isinstance(a0, ast.Constant) else {"code": ast.unparse(a0)},
             "meta": call.args[1].id if isinstance(call.args[1], ast.Name) else None,
-            "cols": [column_j(c) if is_call(c, "Column") else {"other": ast.unparse(c)} for c in call.args[2:]]}
+            "cols": [column_j(c) if is_call(c, "Column") else {"other": ast.unparse(c)} for c in call.args[2:]],
+            # the emitted comment= (the model has the text handed to the docstring emitter: see render_headers)
+            "header_text": next((k.value.value if isinstance(k.value, ast.Constant) else {"code": ast.unparse(k.value)} for k in call.keywords if k.arg == "comment"), None)}
 
 
 def class_j(cls):
     body = []
     for s in cls.body:
         if isinstance(s, ast.Expr) and isinstance(s.value, ast.Constant) and isinstance(s.value.value, str):
-            body.append(["doc"])
+            body.append(["doc", s.value.value])
         elif isinstance(s, ast.Assign) and len(s.targets) == 1 and isinstance(s.targets[0], ast.Name):
             t = s.targets[0].id
             if isinstance(s.value, ast.Constant) and isinstance(s.value.value, str):
@@ -701,7 +705,6 @@ WITNESSES = [
     ("C05-literal1-t2c-keyerror", _w([["k", {"typ_j": {"opt": {"lit": ["a"]}}}]])),
     ("C05-literal1-t2c-assertion", _w([["k", {"typ_j": {"lit": ["a"]}, "doc": "[FK(t.c)] x"}]])),
     ("C05-id-column-replaced", _w([["id", {"typ_j": {"n": "str"}, "doc": "the id"}]], force=True)),
-    ("C05-table-drops-header-doc", _w([["id", {"typ_j": {"n": "int"}, "doc": "[PK] key"}]], doc="Summary line.")),
     ("C05-numpydoc-returns-comment-unparseable", _w([["id", {"typ_j": {"n": "int"}, "doc": "[PK] key"}]], doc="Summary line.", returns={"typ": "int", "doc": "the result"}, style="numpydoc")),
 ]
 
@@ -709,6 +712,62 @@ WITNESSES = [
 # ------------------------------------------------------------------------------------------------------------
 def jd(x):
     return json.dumps(x, sort_keys=True, ensure_ascii=True)
+
+
+def _returns_od(case):
+    return OrderedDict((("return_type", dict(case["returns"])),)) if case.get("returns") else None
+
+
+def expected_comment(text, case):
+    """`comment=` of emit.sqlalchemy_table for a header text: the real docstring emitter (a black box for the model) applied
+    to the text the *model* says is handed to it; None = no keyword"""
+    if text is None:
+        return None
+    from functools import partial
+    from operator import add
+
+    from cdd.docstring.emit import docstring
+    from cdd.shared.pure_utils import deindent
+
+    val = deindent(add(*map(partial(docstring, emit_default_doc=True, docstring_format=case["style"], word_wrap=True, emit_original_whitespace=False, emit_types=True),
+                            ({"doc": text, "params": OrderedDict(), "returns": None}, {"doc": "", "params": OrderedDict(), "returns": _returns_od(case)}))).strip())
+    return val or None
+
+
+def expected_class_doc(text, case):
+    """the class docstring of emit.sqlalchemy / sqlalchemy_hybrid for a header text (real docstring emitter on the model's text)"""
+    from functools import partial
+
+    from cdd.docstring.emit import docstring
+    from cdd.sqlalchemy.utils.parse_utils import concat_with_whitespace
+
+    return concat_with_whitespace(*map(partial(docstring, docstring_format=case["style"], emit_default_doc=True, emit_original_whitespace=False, emit_separating_tab=True,
+                                               emit_types=True, indent_level=1, word_wrap=True),
+                                       ({"doc": text, "params": OrderedDict(), "returns": None}, {"doc": "", "params": OrderedDict(), "returns": _returns_od(case)})))
+
+
+def render_headers(j, case):
+    """model skeleton → what the real emission must look like: header texts go through the real docstring emitter"""
+    import contextlib
+    import io
+
+    def go(x):
+        if isinstance(x, dict):
+            x = {k: go(v) for k, v in x.items()}
+            if "header_text" in x and "cols" in x:
+                x["header_text"] = expected_comment(x["header_text"], case)
+            return x
+        if isinstance(x, list):
+            if len(x) == 2 and x[0] == "doc" and isinstance(x[1], str):
+                return ["doc", expected_class_doc(x[1], case)]
+            return [go(v) for v in x]
+        return x
+
+    try:
+        with contextlib.redirect_stderr(io.StringIO()):
+            return go(j)
+    except Exception as e:  # noqa
+        return {"header_render_error": core.exc_name(e)}
 
 
 def reparse_norm(j):
@@ -732,7 +791,7 @@ def run(chk: core.Check) -> int:
     chk.trusted_base += [
         "translator harness/translators/sqltables.py: reads column_type2typ / typ2column_type / sqlalchemy_top_level_imports from the imported modules (after `import cdd.sqlalchemy.emit`) and writes them as Lean char lists",
         "hand-written model lean/CddVerif/Model/Sql.lean; abstractions: a type is a tree (string predicates on type strings = structural predicates; exercised on every rendered type), "
-        "ast.unparse∘ast.parse is the identity on the emitted calls, the header docstring/comment machinery and generate_repr_method are not modelled, Literal members are plain strings "
+        "ast.unparse∘ast.parse is the identity on the emitted calls, the docstring emitter/parser behind the header docstring and comment= are black boxes (the model gives the text each emitter hands to the docstring emitter; the harness renders it with the real docstring emitter and compares with the emitted comment= / class docstring), generate_repr_method is not modelled, Literal members are plain strings "
         "(repr = quote + text + quote), ensure_valid_identifier is the identity on the generated table names",
         "the oracle compares types as normalised Python expressions, descriptions up to outer whitespace and one terminal '.', defaults with their Python type",
     ]
@@ -764,7 +823,7 @@ def run(chk: core.Check) -> int:
             it["seen"] = 0
         if fid not in ids:
             chk.notes.append("known finding %s is no longer reproduced by its witness (stale line in known_findings.d/C05.txt?)" % fid)
-    model = core.model_batch([{"op": "c05.case", "name": c["name"], "force": c["force"], "has_doc": bool(c["doc"] or (c.get("returns") or {}).get("doc")),
+    model = core.model_batch([{"op": "c05.case", "name": c["name"], "force": c["force"], "doc": c["doc"], "has_returns": bool(c.get("returns")), "returns_has_doc": bool((c.get("returns") or {}).get("doc")),
                                "params": [[nm, to_model_param(p)] for nm, p in c["params"]]} for c in cases]) if have_driver else None
     cov = {"n_params": {}, "typ_class": {}, "default_kind": {}, "marker": {}, "n_candidates": {}, "force": {}, "style": {}, "names": {}, "header_doc_empty": {}, "returns": {},
            "model_unmodelled": 0}
@@ -805,9 +864,10 @@ def run(chk: core.Check) -> int:
                     n_dis["emit"] += 1
                     chk.disagreement("C05 correspondence: emitted %s AST" % kind, replay, o.get("emit_error", o.get("emit")), me)
                 continue
-            if jd(o["emit"]) != jd(me["ok"]):
+            want_emit = render_headers(me["ok"], c)
+            if jd(o["emit"]) != jd(want_emit):
                 n_dis["emit"] += 1
-                chk.disagreement("C05 correspondence: emitted %s AST" % kind, replay, o["emit"], me["ok"])
+                chk.disagreement("C05 correspondence: emitted %s AST" % kind, replay, o["emit"], want_emit)
                 continue
             if model_err(mp) == "raises:unmodelled":
                 cov["model_unmodelled"] += 1
